@@ -11,6 +11,15 @@
     - [EPumpTake|EPumpPut|EPumpExit]  the goroutine started by [Sub]
     - [ECloseBegin|ECloseEnd]  Client.Close before / after [wg.Wait()] (up to close(recv));
       [EDrain|EDrainReply] one round of its final loop over the messages left in recv
+    - [ESub2|EXTake|EXPut|EXExit]  a second or later [Sub] of the same client and the pump
+      goroutine it starts (all pumps of a client put into the same [recv]; [client.topic]
+      remembers the last topic only: [s_last])
+    - [ENewRaw]  a message built with queue.NewMessage(0, topic, 0, nil): ID 0, Ty 0, nil Data,
+      which [isEnd] cannot tell from the close sentinel (an object whose ID is 0)
+    - [EClosePanic]  a Client.Close that starts while another Close of the same client is
+      between close(client.done) and isClosed = 1: close of closed channel
+    - [ECloseQBegin|ECloseQEnd]  Queue.Close in two parts: the loop over the topics under
+      q.mu, and the store isClose = 1 after the unlock ([ECloseQueue] is both at once)
     No proofs here. *)
 From Coq Require Import List NArith Bool.
 Import ListNotations.
@@ -62,13 +71,18 @@ Record client := mkC {
 }.
 Definition client0 : client := mkC fempty None PNone 0 false false [].
 
+(* the pump goroutine of a second or later Sub (the first one lives in the client record) *)
+Record xpump := mkX { x_client : N; x_topic : N; x_st : pump_st; x_hold : option item }.
+Definition xpump0 : xpump := mkX 0 0 PNone None.
+
 Inductive reply := RFor (i : N) | RClosed.
 (* RFor i: the responder's answer to the request whose ID it read as i.
    RClosed: the ErrChannelClosed reply Client.Close produces for a message left in recv
    (it carries nothing that names the request). *)
 
 (* ghost: where the (single) outstanding reference to a message object is *)
-Inductive place := P0 | PChan (t : N) (hi : bool) | PHold (c : N) | PRecv (c : N) | PHeld (c : N) | PPend (p : N).
+Inductive place := P0 | PChan (t : N) (hi : bool) | PHold (c : N) | PRecv (c : N) | PHeld (c : N) | PPend (p : N)
+  | PXHold (k : N).
 
 Record obj := mkO {
   o_id : N; o_topic : N;
@@ -91,23 +105,29 @@ Record state := mkS {
   s_pend : list (N * pend);
   s_qclosed : bool;
   s_gid : N;                  (* largest message ID handed out *)
-  s_deliv : list N            (* ghost: IDs the subscribers have read from Recv, newest first *)
+  s_deliv : list N;           (* ghost: IDs the subscribers have read from Recv, newest first *)
+  s_xp : list (N * xpump);    (* pumps of second and later subscriptions, by pump number *)
+  s_last : list (N * N);      (* client.topic of clients that subscribed more than once *)
+  s_qclosing : bool           (* Queue.Close has closed the topics (closeOnce entered) *)
 }.
 
-Definition init (cp : caps) : state := mkS cp [] [] [] [] false 0 [].
+Definition init (cp : caps) : state := mkS cp [] [] [] [] false 0 [] [] [] false.
 
 Definition gt (s : state) (t : N) : topic := aget topic0 t (s_topics s).
 Definition gc (s : state) (c : N) : client := aget client0 c (s_clients s).
 Definition go (s : state) (o : N) : obj := aget obj0 o (s_objs s).
+Definition gx (s : state) (k : N) : xpump := aget xpump0 k (s_xp s).
+(* the topic Client.Close closes: the one given to the last Sub *)
+Definition last_of (s : state) (c : N) : N := aget (c_topic (gc s c)) c (s_last s).
 
 Definition st (s : state) (t : N) (v : topic) : state :=
-  mkS (s_caps s) (aset t v (s_topics s)) (s_clients s) (s_objs s) (s_pend s) (s_qclosed s) (s_gid s) (s_deliv s).
+  mkS (s_caps s) (aset t v (s_topics s)) (s_clients s) (s_objs s) (s_pend s) (s_qclosed s) (s_gid s) (s_deliv s) (s_xp s) (s_last s) (s_qclosing s).
 Definition sc (s : state) (c : N) (v : client) : state :=
-  mkS (s_caps s) (s_topics s) (aset c v (s_clients s)) (s_objs s) (s_pend s) (s_qclosed s) (s_gid s) (s_deliv s).
+  mkS (s_caps s) (s_topics s) (aset c v (s_clients s)) (s_objs s) (s_pend s) (s_qclosed s) (s_gid s) (s_deliv s) (s_xp s) (s_last s) (s_qclosing s).
 Definition so (s : state) (o : N) (v : obj) : state :=
-  mkS (s_caps s) (s_topics s) (s_clients s) (aset o v (s_objs s)) (s_pend s) (s_qclosed s) (s_gid s) (s_deliv s).
+  mkS (s_caps s) (s_topics s) (s_clients s) (aset o v (s_objs s)) (s_pend s) (s_qclosed s) (s_gid s) (s_deliv s) (s_xp s) (s_last s) (s_qclosing s).
 Definition sp (s : state) (l : list (N * pend)) : state :=
-  mkS (s_caps s) (s_topics s) (s_clients s) (s_objs s) l (s_qclosed s) (s_gid s) (s_deliv s).
+  mkS (s_caps s) (s_topics s) (s_clients s) (s_objs s) l (s_qclosed s) (s_gid s) (s_deliv s) (s_xp s) (s_last s) (s_qclosing s).
 
 Definition set_where (s : state) (o : N) (w : place) : state :=
   let ob := go s o in so s o (mkO (o_id ob) (o_topic ob) (o_slot ob) (o_pool ob) (o_sent ob) w).
@@ -118,11 +138,21 @@ Definition item_where (s : state) (x : item) (w : place) : state :=
   match x with IMsg o => set_where s o w | ISent => s end.
 
 Definition sg (s : state) (i : N) : state :=
-  mkS (s_caps s) (s_topics s) (s_clients s) (s_objs s) (s_pend s) (s_qclosed s) i (s_deliv s).
+  mkS (s_caps s) (s_topics s) (s_clients s) (s_objs s) (s_pend s) (s_qclosed s) i (s_deliv s) (s_xp s) (s_last s) (s_qclosing s).
 Definition sd (s : state) (i : N) : state :=
-  mkS (s_caps s) (s_topics s) (s_clients s) (s_objs s) (s_pend s) (s_qclosed s) (s_gid s) (i :: s_deliv s).
+  mkS (s_caps s) (s_topics s) (s_clients s) (s_objs s) (s_pend s) (s_qclosed s) (s_gid s) (i :: s_deliv s) (s_xp s) (s_last s) (s_qclosing s).
 Definition sq (s : state) (m : list (N * topic)) : state :=
-  mkS (s_caps s) m (s_clients s) (s_objs s) (s_pend s) true (s_gid s) (s_deliv s).
+  mkS (s_caps s) m (s_clients s) (s_objs s) (s_pend s) true (s_gid s) (s_deliv s) (s_xp s) (s_last s) true.
+Definition sx (s : state) (k : N) (v : xpump) : state :=
+  mkS (s_caps s) (s_topics s) (s_clients s) (s_objs s) (s_pend s) (s_qclosed s) (s_gid s) (s_deliv s)
+      (aset k v (s_xp s)) (s_last s) (s_qclosing s).
+Definition sl (s : state) (c t : N) : state :=
+  mkS (s_caps s) (s_topics s) (s_clients s) (s_objs s) (s_pend s) (s_qclosed s) (s_gid s) (s_deliv s)
+      (s_xp s) (aset c t (s_last s)) (s_qclosing s).
+Definition sqb (s : state) (m : list (N * topic)) : state :=
+  mkS (s_caps s) m (s_clients s) (s_objs s) (s_pend s) (s_qclosed s) (s_gid s) (s_deliv s) (s_xp s) (s_last s) true.
+Definition sqe (s : state) : state :=
+  mkS (s_caps s) (s_topics s) (s_clients s) (s_objs s) (s_pend s) true (s_gid s) (s_deliv s) (s_xp s) (s_last s) (s_qclosing s).
 
 Definition touch (s : state) (t : N) : state := st s t (gt s t).
 
@@ -153,7 +183,15 @@ Inductive event :=
 | ECloseEnd (c : N)
 | EDrain (c : N)
 | EDrainReply (c : N)
-| ECloseQueue.
+| ECloseQueue
+| ENewRaw (o t : N)                             (* queue.NewMessage(0, topic, 0, nil) *)
+| ESub2 (k c t : N)                             (* a later Sub of client c; its pump gets number k *)
+| EXTake (k : N) (hi : bool)
+| EXPut (k : N)
+| EXExit (k : N)
+| EClosePanic (c : N)                           (* Close overlapping a Close of the same client *)
+| ECloseQBegin
+| ECloseQEnd.
 
 Definition sres_eqb (a b : sres) : bool :=
   match a, b with
@@ -197,6 +235,18 @@ Definition close_topic_rec (cp : caps) (tp : topic) : topic :=
 
 Definition set_pump (cl : client) (p : pump_st) (h : option item) : client :=
   mkC (c_recv cl) h p (c_topic cl) (c_closing cl) (c_closed cl) (c_held cl).
+Definition set_xp (xp : xpump) (p : pump_st) (h : option item) : xpump :=
+  mkX (x_client xp) (x_topic xp) p h.
+
+(* wg.Wait() of Client.Close: every later pump of the client has returned *)
+Definition xp_done (s : state) (c : N) : bool :=
+  forallb (fun kv => negb (x_client (snd kv) =? c)
+                     || match x_st (snd kv), x_hold (snd kv) with
+                        | PRun, _ | _, Some _ => false
+                        | _, None => true
+                        end) (s_xp s).
+Definition close_all (s : state) : list (N * topic) :=
+  map (fun kv => (fst kv, close_topic_rec (s_caps s) (snd kv))) (s_topics s).
 
 Fixpoint remove_pair (o i : N) (l : list (N * N)) : list (N * N) :=
   match l with
@@ -246,7 +296,7 @@ Definition step (s : state) (e : event) : option state :=
       else match c_pump cl with
            | PNone => let s1 := touch s t in
                       Some (sc s1 c (mkC (c_recv cl) (c_hold cl) PRun t false false (c_held cl)))
-           | _ => None      (* a second Sub on the same client is not modelled *)
+           | _ => None      (* a later Sub of the same client: [ESub2] *)
            end
   | ESend c o hi m r =>
       let t := o_topic (go s o) in
@@ -302,7 +352,10 @@ Definition step (s : state) (e : event) : option state :=
                 let s1 := st s (c_topic cl) (set_chan tp hi f') in
                 match x with
                 | ISent => Some (sc s1 c (set_pump cl PExit None))
-                | IMsg _ => Some (item_where (sc s1 c (set_pump cl PRun (Some x))) x (PHold c))
+                | IMsg o =>
+                    if o_id (go s o) =? 0     (* isEnd: taken for the sentinel, dropped, the pump returns *)
+                    then Some (set_where (sc s1 c (set_pump cl PExit None)) o P0)
+                    else Some (set_where (sc s1 c (set_pump cl PRun (Some x))) o (PHold c))
                 end
             end
           else None
@@ -320,7 +373,8 @@ Definition step (s : state) (e : event) : option state :=
   | EPumpExit c =>
       let cl := gc s c in
       match c_pump cl, c_hold cl with
-      | PRun, None => if t_closed (gt s (c_topic cl)) then Some (sc s c (set_pump cl PExit None)) else None
+      | PRun, None =>       (* sub.done (outer select) or client.done (inner select) *)
+          if t_closed (gt s (c_topic cl)) || c_closing cl then Some (sc s c (set_pump cl PExit None)) else None
       | _, _ => None
       end
   | ERecv c o i =>
@@ -365,17 +419,19 @@ Definition step (s : state) (e : event) : option state :=
       let cl := gc s c in
       match c_closed cl, c_closing cl, c_pump cl with
       | false, false, PRun | false, false, PExit =>
-          let s1 := st s (c_topic cl) (close_topic_rec (s_caps s) (gt s (c_topic cl))) in
+          let t := last_of s c in    (* closeTopic(client.getTopic()): the last Sub's topic only *)
+          let s1 := st s t (close_topic_rec (s_caps s) (gt s t)) in
           Some (sc s1 c (mkC (c_recv cl) (c_hold cl) (c_pump cl) (c_topic cl) true false (c_held cl)))
       | false, false, PNone =>   (* never subscribed: no topic to close, the rest is the same *)
           Some (sc s c (mkC (c_recv cl) (c_hold cl) PNone (c_topic cl) true false (c_held cl)))
-      | _, _, _ => None     (* Close overlapping another Close of the same client: not modelled *)
+      | _, _, _ => None     (* Close overlapping another Close of the same client: [EClosePanic] *)
       end
   | ECloseEnd c =>    (* wg.Wait() has returned (pump gone, or there never was one) *)
       let cl := gc s c in
       match c_closing cl, c_closed cl, c_pump cl, c_hold cl with
       | true, false, PExit, None | true, false, PNone, None =>
-          Some (sc s c (mkC (c_recv cl) None (c_pump cl) (c_topic cl) true true (c_held cl)))
+          if xp_done s c then Some (sc s c (mkC (c_recv cl) None (c_pump cl) (c_topic cl) true true (c_held cl)))
+          else None
       | _, _, _, _ => None
       end
   | EDrain c =>       (* for msg := range client.Recv() : takes the next left message *)
@@ -401,11 +457,74 @@ Definition step (s : state) (e : event) : option state :=
       end
   | ECloseQueue =>
       if s_qclosed s then Some s      (* closeOnce *)
-      else Some (sq s (map (fun kv => (fst kv, close_topic_rec (s_caps s) (snd kv))) (s_topics s)))
+      else if s_qclosing s then None  (* a second caller waits in closeOnce.Do *)
+      else Some (sq s (close_all s))
+  | ENewRaw o t =>      (* a new object (never handed out before), not one from the pool *)
+      let ob := go s o in
+      if o_pool ob && (o_id ob =? 0) && negb (o_sent ob)
+      then Some (so s o (mkO 0 t (o_slot ob) false false (o_where ob))) else None
+  | ESub2 k c t =>
+      let cl := gc s c in
+      let xp := gx s k in
+      match c_closing cl || c_closed cl, c_pump cl, x_st xp, x_hold xp with
+      | false, PRun, PNone, None | false, PExit, PNone, None =>
+          Some (sl (sx (touch s t) k (mkX c t PRun None)) c t)
+      | _, _, _, _ => None
+      end
+  | EXTake k hi =>
+      let xp := gx s k in
+      let tp := gt s (x_topic xp) in
+      match x_st xp, x_hold xp with
+      | PRun, None =>
+          let ok := if hi then true else fis_empty (t_high tp) && negb (t_closed tp) in
+          if ok then
+            match fpop (chan_of tp hi) with
+            | None => None
+            | Some (x, f') =>
+                let s1 := st s (x_topic xp) (set_chan tp hi f') in
+                match x with
+                | ISent => Some (sx s1 k (set_xp xp PExit None))
+                | IMsg o =>
+                    if o_id (go s o) =? 0
+                    then Some (set_where (sx s1 k (set_xp xp PExit None)) o P0)
+                    else Some (set_where (sx s1 k (set_xp xp PRun (Some x))) o (PXHold k))
+                end
+            end
+          else None
+      | _, _ => None
+      end
+  | EXPut k =>
+      let xp := gx s k in
+      let c := x_client xp in
+      let cl := gc s c in
+      match x_hold xp with
+      | Some x =>
+          if fspace (rcap (s_caps s)) (c_recv cl) && negb (c_closed cl)
+          then Some (item_where (sx (sc s c (mkC (fpush x (c_recv cl)) (c_hold cl) (c_pump cl) (c_topic cl) (c_closing cl) (c_closed cl) (c_held cl)))
+                                    k (set_xp xp (x_st xp) None)) x (PRecv c))
+          else None
+      | None => None
+      end
+  | EXExit k =>
+      let xp := gx s k in
+      match x_st xp, x_hold xp with
+      | PRun, None =>
+          if t_closed (gt s (x_topic xp)) || c_closing (gc s (x_client xp))
+          then Some (sx s k (set_xp xp PExit None)) else None
+      | _, _ => None
+      end
+  | EClosePanic c =>    (* isClosed is still 0, closeTopic finds the topic closed, close(client.done) panics *)
+      let cl := gc s c in
+      if c_closing cl && negb (c_closed cl) then Some s else None
+  | ECloseQBegin =>
+      if s_qclosing s then None else Some (sqb s (close_all s))
+  | ECloseQEnd =>
+      if s_qclosing s && negb (s_qclosed s) then Some (sqe s) else None
   end.
 
 (** ** the client discipline (FreeMessage: "the context must no longer reference the message")
     under which the reply / delivery theorems are stated:
+    - messages are made with client.NewMessage (not the sentinel look-alike of [ENewRaw]);
     - a message is sent only between NewMessage and FreeMessage, and at most once per NewMessage
       (a send that failed does not count);
     - a message is freed only when nobody else can still reference it: it was not sent, or
@@ -416,6 +535,7 @@ Definition disc (s : state) (e : event) : bool :=
   match e with
   | EFree o => place_is0 (o_where (go s o)) && match o_slot (go s o) with None => true | Some _ => false end
   | ESend _ o _ _ _ | EBlock _ _ o _ _ => negb (o_pool (go s o)) && negb (o_sent (go s o))
+  | ENewRaw _ _ => false       (* requests are made with client.NewMessage *)
   | _ => true
   end.
 
@@ -424,6 +544,48 @@ Fixpoint drun (s : state) (tr : list event) : option state :=
   | [] => Some s
   | e :: tl => if disc s e then match step s e with Some s' => drun s' tl | None => None end else None
   end.
+
+(** ** guarded runs in general, and the guards of the close theorems *)
+Fixpoint grun (g : state -> event -> bool) (s : state) (tr : list event) : option state :=
+  match tr with
+  | [] => Some s
+  | e :: tl => if g s e then match step s e with Some s' => grun g s' tl | None => None end else None
+  end.
+
+Fixpoint mem_key (x : N) (l : list N) : bool :=
+  match l with [] => false | y :: tl => (x =? y) || mem_key x tl end.
+Definition topic_known (s : state) (t : N) : bool := mem_key t (map fst (s_topics s)).
+
+(* no send parks while Queue.Close is between its loop over the topics and isClose = 1 *)
+Definition bdisc (s : state) (e : event) : bool :=
+  match e with EBlock _ _ _ _ _ => negb (s_qclosing s) | _ => true end.
+(* once Queue.Close has walked the topics, no call names a topic that did not exist then
+   (q.chanSub would create it, open, inside the closed queue) *)
+Definition qdisc (s : state) (e : event) : bool :=
+  if s_qclosing s then
+    match e with
+    | ESend _ o _ _ _ | EBlock _ _ o _ _ | EWait _ o _ _ => topic_known s (o_topic (go s o))
+    | ESub _ t | ESub2 _ _ t => topic_known s t
+    | _ => true
+    end
+  else true.
+(* one Sub per client *)
+Definition sdisc (s : state) (e : event) : bool := match e with ESub2 _ _ _ => false | _ => true end.
+(* every message that is sent has a non-zero ID (client.NewMessage numbers from 1) *)
+Definition rdisc (s : state) (e : event) : bool :=
+  match e with ESend _ o _ _ _ | EBlock _ _ o _ _ => negb (o_id (go s o) =? 0) | _ => true end.
+(* no Close of client c is between close(client.done) and isClosed = 1 *)
+Definition close_in_progress (s : state) (c : N) : bool := c_closing (gc s c) && negb (c_closed (gc s c)).
+(* the topics client c has subscribed to *)
+Definition subs_of (s : state) (c : N) : list N :=
+  match c_pump (gc s c) with
+  | PNone => []
+  | _ => c_topic (gc s c) :: map (fun kv => x_topic (snd kv)) (filter (fun kv => x_client (snd kv) =? c) (s_xp s))
+  end.
+Definition single_sub (s : state) (c : N) : bool := forallb (fun t => t =? last_of s c) (subs_of s c).
+Definition wait_returns_guard (s : state) (c o : N) (timed : bool) : bool :=
+  timed || c_closing (gc s c) || t_closed (gt s (o_topic (go s o)))
+  || match o_slot (go s o) with Some _ => true | None => false end.
 
 (* Client.Close has returned *)
 Definition close_done (s : state) (c : N) : bool :=
